@@ -120,8 +120,12 @@ def generate(seed, tier):
                     body.append(["sleep", wrng.choice((0.05, 0.3, 1.0, 3.0))])
                 body.append(op)
             tx["body"] = body
+        # the lock holder may add documents that the buffered transaction deletes by term: the
+        # delete has to be resolved when it is replayed, not when it was called
+        targets = [int(op[2][1:]) for op in rec["txs"][0]["body"] if op[0] == "del_term" and op[1] == "k"]
+        bkeys = [(wrng.choice(targets) if (targets and wrng.random() < 0.7) else 100 + i) for i in range(2)]
         rec["fe_args"] = {"delay": mrng.choice((0.05, 0.25)), "hold": mrng.choice((0.01, 0.3, 1.0)),
-                          "blocker_docs": [dg.doc(key=100 + i) for i in range(2)]}
+                          "blocker_docs": [dg.doc(key=k_) for k_ in bkeys]}
     return rec
 
 
